@@ -43,6 +43,10 @@ type Exec struct {
 	released map[string]bool
 	privateRefs []string // refs of non-escaping stack allocations made so far
 	outsideRefs []string // refs of specification-level method results (never private stack objects)
+	recTypes    map[string]types.Type // results recorded by "option records <name>"
+	typedHavocs []*thEvent
+	thDone      map[string]bool
+	loadOwner   string
 }
 
 type genParent struct{ reach, gen string }
@@ -352,6 +356,14 @@ func (x *Exec) ltIdx(a, b string) string {
 
 const maxArrayExpand = 64
 
+// loadOwned: load with the owner of the cell known (see typedhavoc.go)
+func (x *Exec) loadOwned(st *State, t types.Type, loc, owner string) string {
+	prev := x.loadOwner
+	x.loadOwner = owner
+	defer func() { x.loadOwner = prev }()
+	return x.load(st, t, loc)
+}
+
 func (x *Exec) load(st *State, t types.Type, loc string) string {
 	t = types.Unalias(t)
 	switch u := t.Underlying().(type) {
@@ -360,13 +372,23 @@ func (x *Exec) load(st *State, t types.Type, loc string) string {
 			return "unit"
 		}
 		var fs []string
+		prev := x.loadOwner
+		if !strings.HasPrefix(prev, "global:") { // the fields of a package-level struct variable belong to the variable
+			x.loadOwner = ownerName(t)
+		}
 		for i := 0; i < u.NumFields(); i++ {
 			fs = append(fs, x.load(st, u.Field(i).Type(), fld(loc, i)))
 		}
+		x.loadOwner = prev
 		return x.c.mkStruct(u, fs)
 	case *types.Array:
 		if n, ok := isByteArray(t); ok && !x.c.Int {
 			h := x.get(st, "H:(_ BitVec 8)")
+			if len(x.typedHavocs) > 0 {
+				for k := 0; k < n; k++ {
+					x.frameFacts("H:(_ BitVec 8)", elt(loc, x.c.idx(int64(k))), x.loadOwner)
+				}
+			}
 			if n == 1 {
 				return sx("select", h, elt(loc, x.c.idx(0)))
 			}
@@ -386,6 +408,10 @@ func (x *Exec) load(st *State, t types.Type, loc string) string {
 		return x.c.freshConst("arrval", x.c.sortOf(t))
 	}
 	s := x.c.sortOf(t)
+	if len(x.typedHavocs) > 0 {
+		x.frameFacts("H:"+s, loc, x.loadOwner)
+	}
+	x.entryValueFacts("H:"+s, x.get(st, "H:"+s), loc, x.loadOwner, s)
 	return sx("select", x.get(st, "H:"+s), loc)
 }
 
@@ -479,6 +505,9 @@ func (x *Exec) havocAllHeap(st *State) {
 	for _, k := range ks {
 		delete(st.Comp, k)
 	}
+	// lock states and the allocation counter are not heap contents: they survive
+	st.Comp["lock"] = x.get(st, "lock")
+	st.Comp["alloc"] = x.get(st, "alloc")
 	st.Gen = x.c.fresh("g")
 }
 
